@@ -104,6 +104,7 @@ structure Aux where
   keyVar : List (Nat × Option Name) := []               -- key_to_ncvar
   coords : List Name := []                              -- the `coordinates` list
   localSpans : List (Name × Nat × List (Nat × Nat × Nat)) := []
+  unlimDims : List Name := []                           -- g['unlimited_ncdims'] (filled by the axis branch only)
   deriving Repr, Inhabited
 
 structure Reg where
@@ -276,7 +277,7 @@ inductive Req
   `base`: ncvar or standard_name; `ncdim`: the axis' netCDF dimension name, if set. -/
   | dimCoord (key axis : Nat) (c : Cons) (base ncdim : Option Name) (size : Nat) (unlim : Bool) (b : Option BReq)
   /-- data axis without a dimension coordinate; `spanning`: (cid, kind, position) of the constructs spanning it. -/
-  | axisDim (axis size : Nat) (unlim : Bool) (base : Name) (spanning : List (Nat × Nat × Nat))
+  | axisDim (axis size : Nat) (unlim : Bool) (base : Name) (spanning : List (Nat × Nat × Nat)) (pinned : Bool := false)
   | scalarCoord (key axis : Nat) (c : Cons) (base : Name) (b : Option BReq)
   | aux (key : Nat) (c : Cons) (axes : List Nat) (base : Name) (b : Option BReq)
   | domAnc (key : Nat) (c : Cons) (axes : List Nat) (base : Name) (b : Option BReq)
@@ -413,16 +414,29 @@ def emitReq (fx : Fix) : Req → Prog Unit
         | _ => failK "seen[coord]['ncdims'][0]"
       | none => pure ()
     -- g['coordinates'] is False by default: the coordinate is not added to `coordinates`
-  | .axisDim axis size unlim base spanning => do
+  | .axisDim axis size unlim base spanning pinned => do
     let a ← getAux
-    let reuse := a.spans.find? (fun (_, s1, cs1) =>
-      s1 == size && spanning.any (fun (c0, k0, i0) => cs1.any (fun (c1, k1, i1) => i0 == i1 && c0 == c1 && k0 == k1)))
+    let used := a.axisDim.map (·.2)
+    -- a stored dimension of the same size that this field does not use yet, with an equal construct at
+    -- the same position
+    let reuse := a.spans.find? (fun (d1, s1, cs1) =>
+      s1 == size && !used.contains d1 &&
+      spanning.any (fun (c0, k0, i0) => cs1.any (fun (c1, k1, i1) => i0 == i1 && c0 == c1 && k0 == k1)))
     match reuse with
     | some (d, _, _) => modA (fun a => { a with axisDim := a.axisDim.filter (·.1 != axis) ++ [(axis, d)] })
     | none =>
-      let ncdim ← allocN base
-      writeDimension ncdim axis size unlim
-      modA (fun a => { a with localSpans := a.localSpans ++ [(ncdim, size, spanning)] })
+      let nm ← getNm
+      -- the axis names its netCDF dimension and a dimension of that name, size and (un)limitedness is
+      -- registered, is no variable name, has no role and is not used by another axis of this field:
+      -- that dimension is used rather than a renamed copy of it
+      if pinned && (unlim == a.unlimDims.contains base) && nm.sizeOf? base == some size && !used.contains base
+          && !a.seen.any (·.ncvar == base) && !nm.roles.any (·.2 == base) then
+        modA (fun a => { a with axisDim := a.axisDim.filter (·.1 != axis) ++ [(axis, base)] })
+      else
+        let ncdim ← allocN base
+        writeDimension ncdim axis size unlim
+        modA (fun a => { a with localSpans := a.localSpans ++ [(ncdim, size, spanning)],
+                                unlimDims := if unlim then a.unlimDims ++ [ncdim] else a.unlimDims })
   | .scalarCoord key axis c base b => do
     let a ← getAux
     let ncvar ← match alreadyInFile a c (some []) false with
